@@ -467,6 +467,11 @@ func parseContractText(lines []string, file string, pkgPath string, voc *Vocab) 
 				}
 			}
 			if m == nil {
+				if m2 := regexp.MustCompile(`^at\s+entry\s*:\s*(.*?)\s*:=\s*(.*)$`).FindStringSubmatch(rest); m2 != nil {
+					m = []string{m2[0], "entry", m2[1], m2[2]}
+				}
+			}
+			if m == nil {
 				return fail(fmt.Errorf("%s:%d: bad ghost clause", file, lineNo))
 			}
 			l, err := parseCExpr(m[2])
